@@ -1286,6 +1286,9 @@ func (p *prop) Run(line string) core.Outcome {
 	if f := strings.Fields(line); len(f) > 0 && f[0] == "cf" {
 		return p.runCf(f)
 	}
+	if f := strings.Fields(line); len(f) > 0 && f[0] == "url" {
+		return p.runURL(f)
+	}
 	c, ok := parseCase(line)
 	if !ok {
 		return core.Outcome{Impl: "bad-op", Tags: []string{"bad-op", "trivial"}}
